@@ -331,3 +331,18 @@ theorem C19_set_leaves_other_keys (p q : String) (v : Json) (d : Option Json) (h
   ⟨fun m h => mem_set_frame m p q v d h hq hne, fun s h => sql_set_frame s p q v d h hq hne⟩
 
 example : ("b.c" : String).isEmpty = false ∧ (splitPath "a.0.x").head? ≠ (splitPath "b.c").head? := by decide
+
+/-! ## Source shape of the code paths the machines follow -/
+
+/-- the path helpers, `merge_state` / `clear` and the SQLite methods still have the dispatch the
+machines `Mem`, `Sql` (and the walkers `child` / `assign` / `setLoop` / `rootSet`) were written
+along — branch order of `traverse_path_step` / `assign_path_step`, exception classes that turn a
+missing segment into "create `{}`" or "default", depth test, replace / merge / reject order and the
+argument-free dumps of `merge_state`, fresh instance on `clear`, `set` = `edit_state` around
+`set_by_path`, first read inserts the row, save = upsert, typed rows dumped with `mode="json"` only
+(definitions regenerated from the source by `harness/gen/statestore_shape.py` on every run) -/
+theorem C19_source_shape_walkers : walkersShape = true ∧ mergeShape = true ∧ sqliteShape = true := by decide
+
+/-- the shapes are tables, not constants `true`: they talk about these lists -/
+example : GenStateStoreShape.traverseDispatch.length = 4 ∧ GenStateStoreShape.mergeBranches.length = 3 ∧
+    GenStateStoreShape.setCatches.length ≥ 4 := by decide
